@@ -167,7 +167,7 @@ def run_property(prop, tier):
     states = sum(e.get("paths", 0) + e.get("cbmc_checks", 0) for e in results)
     transitions = sum(e.get("queries", 0) + e.get("cbmc_checks", 0) + (e.get("covers", [0, 0])[1] if isinstance(e.get("covers"), list) else 0)
                       for e in results)
-    replays = sum(1 for e in results if e.get("replayed") or e.get("cex"))
+    replays = sum(1 for e in results if e.get("replayed") or e.get("replay")) + sum(e.get("traces_validated", 0) for e in results)
     coverage = {
         "states": max(1, states),
         "transitions": max(1, transitions),
